@@ -44,7 +44,8 @@ class Net(object):
         self.queues = []
         self.procs = []
         self.stats = {"q_put": 0, "q_lost": 0, "q_delayed": 0, "pipe_send": 0, "started": 0,
-                      "terminated": 0, "pickled_exceptions": 0}
+                      "terminated": 0, "pickled_exceptions": 0, "slow_starts": 0}
+        self.slow_start = False     # fault: fork/exec of a child may take (virtual) time in the parent
 
     def factories(self):
         net = self
@@ -271,7 +272,12 @@ class SimProcess(object):
                     c.close()
         self.task.on_exit.append(on_exit)
         self.net.stats["started"] += 1
-        k.yield_point("process.start")
+        if self.net.slow_start and self.net.tape.chance(1, 2, "start.slow"):
+            # a loaded machine / a large parent: start() returns late, the children already run
+            self.net.stats["slow_starts"] += 1
+            k.sleep(self.net.tape.rint(1, 40, "start.delay") * 0.05)
+        else:
+            k.yield_point("process.start")
 
     def terminate(self):
         k = self.net.kernel
